@@ -42,6 +42,21 @@ closed-side rule applied to the objects of the column's patch alone (C10_count_p
 every pair sequence, whatever the partners hold); a sample without binning (unknown side of a
 cross-correlation) must report the patch total in every bin.  Serial, real worker processes and the
 pickling pool with permuted order of arrival.
+
+Histories of the tree cache ('history' family): the trees are cached per patch together with the binning they were built
+with, and BinnedTrees.build decides per patch whether they can be kept, so the patches of ONE catalog may hold trees for
+DIFFERENT binnings (or none) when the measured build is requested: BinnedTrees.build on a subset of the patches (first only,
+last only, all but first / last, every second, a prefix, a random subset), Catalog.build_trees or a measurement run
+interrupted after k rebuilds (fault injection into yaw.catalog.trees.build_trees), each with the other closed side, moved
+inner edges, one bin more / fewer, a wider / narrower range or no binning, in sequences of one to four steps.  Then
+Catalog.build_trees (forced or not), autocorrelate or crosscorrelate is run with the configured binning (serial, worker
+processes, pickling pool) and the cache of EVERY patch (stored binning and per-bin num_records / sum_weights), HistData and
+the measurement's sum_weights are compared in Coq (c10_cache_case) with the model of the cache (Model/Binning.v: patch_build,
+cat_build, cat_build_intr, run_history: C10_cache_history_member holds for every history) and with the closed-side rule of the
+requested binning; the cache before the measured build is compared with the model of the history.  In a cross-correlation the
+catalog used WITHOUT binning has a history of its own (it served as a binned sample before) and must report the patch total in
+every bin.  Redshifts are drawn from the edges / midpoints / outside values of the requested binning and of the binnings of
+the history, i.e. where the binnings of one history disagree.
 """
 import copy
 import itertools
@@ -65,6 +80,10 @@ TRUSTED = [
     "worker processes: the real multiprocessing pool (fork) is run with 2-4 workers; the 'pickling' pool runs the tasks in the "
     "calling process and reproduces only what a pool does to tasks and results (ForkingPickler round trip), not the OS scheduling (C05); "
     "MPI (mpi4py absent) is not exercised",
+    "history family: an interrupted catalog-wide build is produced by fault injection: the module-level function "
+    "yaw.catalog.trees.build_trees, which BinnedTrees.build calls between removing the patch's binning file and writing the new trees, "
+    "is replaced for that step by a wrapper that raises a BaseException at the (fuel+1)-th call (serial builds only); a process "
+    "killed at another instruction of BinnedTrees.build is not reproduced (C07 / C18 territory)",
 ]
 ASSUMPTIONS = [
     "redshifts, edges and weights are dyadic rationals with few bits, so every float64 sum is exact and is compared with Qeq_bool",
@@ -76,6 +95,10 @@ ASSUMPTIONS = [
     "a refusal (InconsistentPatchesError) is counted, not reported, and more than 20% refusals break an obligation",
     "linked family: the pair sequence handed to the model is the one the implementation's PatchLinkage yields for the case "
     "(C10_count_pairs_schedule_free: the verdict does not depend on it as long as every patch occurs, which flag 4 of c10_count_case checks)",
+    "history family: every patch holds an object inside the requested binning and inside every binning of the history (flag 8 of "
+    "c10_cache_case, evaluated in Coq; otherwise the pinned commit stops at c10-empty-patch-unboundlocal); the steps of a history "
+    "run serially, the measured build also on worker processes; Catalog.build_trees visits the patches in the order of their ids "
+    "(the model of an interrupted build; checked through the observed cache before the measured build, flag 5)",
 ]
 RULE = ("cases = (closed side, weight column present, edges, per-patch lists of (redshift, weight), consumers observed, "
         "where the work is done: serial / real worker processes / pickling pool / transported binning); "
@@ -84,7 +107,12 @@ RULE = ("cases = (closed side, weight column present, edges, per-patch lists of 
         "transport cases = (object type, transport, closed side, edges), all non-trivial; "
         "linked cases = (closed side, edges, patch centre gaps, auto / cross, per sample: weight column, per-patch (redshift, weight) lists, "
         "where the work is done), one evaluation per pair-count container; non-trivial when some counted patch pair joins, in some bin, "
-        "a populated tree with an empty one (the inputs on which a per-bin sum could depend on the partner patch)")
+        "a populated tree with an empty one (the inputs on which a per-bin sum could depend on the partner patch); "
+        "history cases = (closed side, weight column, edges, per-patch (redshift, weight) lists, history of the cache: sequence of "
+        "(per-patch builds on listed patches | catalog-wide build | build interrupted after k rebuilds, via build_trees / autocorrelate, "
+        "force, binning), measured through build_trees(force) / autocorrelate / crosscorrelate, history of the unbinned catalog, where the "
+        "work is done), one evaluation per catalog; non-trivial when, before the measured build, the patches of the catalog do not all "
+        "hold trees for the requested binning (another binning, different binnings, or no trees in some patch)")
 
 HEADER = "From Verif Require Import Prelude Binning.\nOpen Scope Q_scope.\n"
 
@@ -988,6 +1016,511 @@ def run_linked(ctx, specs, name="Linked_C10"):
     return codes
 
 
+# ---------------------------------------------------------------- histories of the tree cache
+class _Interrupted(BaseException):
+    """raised by the fault injection below inside BinnedTrees.build (not an Exception: nothing in yaw handles it, like a kill)"""
+
+
+class interrupted_after:
+    """fault injection for an interrupted catalog-wide build: `fuel` tree (re)builds complete, the next one is hit after
+    BinnedTrees.build has invalidated the patch's cache (binning file removed) and before new trees are written.
+    yaw.catalog.trees.build_trees is the module-level function BinnedTrees.build calls for the actual work."""
+
+    def __init__(self, fuel):
+        self.fuel = int(fuel)
+
+    def __enter__(self):
+        import yaw.catalog.trees as T
+        self.mod, self.orig = T, T.build_trees
+        left = [self.fuel]
+
+        def build_trees(*a, **k):
+            if left[0] <= 0:
+                raise _Interrupted()
+            left[0] -= 1
+            return self.orig(*a, **k)
+
+        T.build_trees = build_trees
+        return self
+
+    def __exit__(self, *a):
+        self.mod.build_trees = self.orig
+        return False
+
+
+def flip(closed):
+    return "left" if closed == "right" else "right"
+
+
+def alt_binnings(edges, closed):
+    """binnings other than the requested one that a cache may still hold: other closed side, moved inner edges,
+    one bin fewer / more, a wider / narrower redshift range, no binning; (name, edges or None, closed)"""
+    other = flip(closed)
+    nb = len(edges) - 1
+    alts = [("flip", list(edges), other)] * 3
+    if nb >= 2:
+        moved = [edges[0]] + [(a + b) / 2.0 for a, b in zip(edges[1:-1], edges[2:])] + [edges[-1]]
+        alts += [("moved", moved, closed)] * 2 + [("moved+flip", moved, other)]
+        alts += [("merged", edges[:1] + edges[2:], closed)]
+    split = edges[:1] + [(edges[0] + edges[1]) / 2.0] + edges[1:]
+    alts += [("split", split, closed), ("split+flip", split, other)]
+    wider = [edges[0] - 0.0625] + edges[1:-1] + [edges[-1] + 0.0625]
+    narrower = [edges[0] + 0.03125] + edges[1:-1] + [edges[-1] - 0.03125]
+    alts += [("wider", wider, closed), ("wider+flip", wider, other), ("narrower", narrower, closed), ("narrower+flip", narrower, other)]
+    alts += [("unbinned", None, closed)]
+    return alts
+
+
+def patch_subset(rng, P, pattern=None):
+    """(name, ids): which patches a partial (re)build reached"""
+    pats = {"first": [0], "last": [P - 1], "all-but-first": list(range(1, P)), "all-but-last": list(range(P - 1)),
+            "even": list(range(0, P, 2)), "odd": list(range(1, P, 2)), "prefix": list(range(rng.randrange(1, P))),
+            "random": sorted(rng.sample(range(P), rng.randrange(1, P))), "all-reversed": list(range(P))[::-1]}
+    name = pattern or rng.choice(["first", "first", "last", "all-but-first", "all-but-last", "even", "odd", "prefix", "random", "random",
+                                  "all-reversed"])
+    return name, pats[name]
+
+
+def hstep(op, key, ids=None, fuel=None, force=False, via="build"):
+    """one step of a cache history; key = (name, edges or None, closed)"""
+    return dict(op=op, via=via, ids=ids, fuel=fuel, force=bool(force), name=key[0], edges=key[1], closed=key[2])
+
+
+def step_keys(steps):
+    return [(st["edges"], st["closed"]) for st in steps if st["edges"] is not None]
+
+
+def history_objects(rng, P, edges, closed, hasw, keys):
+    """per patch 2-7 objects on the edges / midpoints / outside values of the requested binning AND of the binnings of the
+    history (where two binnings of a history disagree), and one object inside every binning involved"""
+    crit = sorted(set(v for e, _ in [(edges, closed)] + keys for v in critical_values(e)))
+    patches = []
+    for _ in range(P):
+        zs = []
+        for _ in range(rng.randrange(2, 8)):
+            if rng.random() < 0.85:
+                zs.append(rng.choice(crit))
+            else:
+                zs.append(rng.randrange(int(edges[0] * 64) - 12, int(edges[-1] * 64) + 20) / 64.0)
+        if not all(any(gen_inside(c, e, z) for z in zs) for e, c in [(edges, closed)] + keys):
+            k = rng.randrange(len(edges) - 1)
+            zs.insert(rng.randrange(len(zs) + 1), (edges[k] + edges[k + 1]) / 2.0)   # strictly inside every binning of alt_binnings
+        patches.append([(z, rng.randrange(1, 41) / 8.0 if hasw else 1.0) for z in zs])
+    return patches
+
+
+HISTORY_TEMPLATES = ["partial-rebuild", "partial-rebuild", "interrupted-rebuild", "interrupted-rebuild", "interrupted-measurement",
+                     "subset-only", "stale-subset", "stale-subset", "three-binnings", "interrupted-twice", "random", "random"]
+UNK_TEMPLATES = ["fresh", "was-reference:partial", "was-reference:interrupted", "unbinned:stale-subset", "interrupted-only"]
+
+
+def gen_history(rng, template, P, B, alts):
+    binned = [a for a in alts if a[1] is not None]
+    A, C = rng.choice(alts), rng.choice(alts)
+    if template == "partial-rebuild":          # everything built with A, the rebuild with B reached a subset (per-patch builds)
+        return [hstep("catalog", A), hstep("patches", B, ids=patch_subset(rng, P)[1], force=rng.random() < 0.2)]
+    if template == "interrupted-rebuild":      # ... the rebuild with B was interrupted
+        return [hstep("catalog", A), hstep("interrupted", B, fuel=rng.randrange(0, P))]
+    if template == "interrupted-measurement":  # the same through the measurement's own build
+        A = rng.choice(binned)
+        return [hstep("catalog", A, via="auto"), hstep("interrupted", B, fuel=rng.randrange(1, P), via="auto")]
+    if template == "subset-only":              # only some patches hold trees at all
+        return [hstep("patches", B, ids=patch_subset(rng, P)[1])]
+    if template == "stale-subset":             # everything built with B, then some patches with A
+        return [hstep("catalog", B), hstep("patches", A, ids=patch_subset(rng, P)[1])]
+    if template == "three-binnings":
+        return [hstep("catalog", A), hstep("patches", B, ids=patch_subset(rng, P)[1]), hstep("patches", C, ids=patch_subset(rng, P)[1])]
+    if template == "interrupted-twice":
+        return [hstep("interrupted", A, fuel=rng.randrange(1, P + 1)), hstep("interrupted", B, fuel=rng.randrange(0, P))]
+    steps = []
+    for _ in range(rng.randrange(1, 5)):
+        key = rng.choice(alts + [B, B, B])
+        op = rng.choice(["patches", "patches", "catalog", "interrupted"])
+        steps.append(hstep(op, key, ids=patch_subset(rng, P)[1] if op == "patches" else None,
+                           fuel=rng.randrange(0, P + 1) if op == "interrupted" else None, force=rng.random() < 0.25))
+    return steps
+
+
+def gen_unk_history(rng, template, P, B, alts):
+    """history of the catalog used as the sample WITHOUT binning (unknown sample of a cross-correlation)"""
+    binned = [a for a in alts if a[1] is not None] + [B, B]
+    X, U = rng.choice(binned), ("unbinned", None, B[2])
+    if template == "was-reference:partial":     # served as reference sample before; the unbinned rebuild reached a subset
+        return [hstep("catalog", X), hstep("patches", U, ids=patch_subset(rng, P)[1])]
+    if template == "was-reference:interrupted":
+        return [hstep("catalog", X), hstep("interrupted", U, fuel=rng.randrange(0, P))]
+    if template == "unbinned:stale-subset":
+        return [hstep("catalog", U), hstep("patches", X, ids=patch_subset(rng, P)[1])]
+    if template == "interrupted-only":
+        return [hstep("interrupted", X, fuel=rng.randrange(1, P + 1))]
+    return []
+
+
+def random_history_spec(rng):
+    edges = random_edges(rng)
+    closed = rng.choice(["left", "right"])
+    hasw = rng.random() < 0.5
+    P = rng.choice([2, 3, 3, 4, 4, 5])
+    B = ("requested", list(edges), closed)
+    alts = alt_binnings(edges, closed)
+    template = rng.choice(HISTORY_TEMPLATES)
+    history = gen_history(rng, template, P, B, alts)
+    meas = rng.choice([None, "auto", "auto", "cross", "cross"])
+    final = rng.choice(["build_trees", "build_trees", "measure"]) if meas else "build_trees"
+    force = final == "build_trees" and rng.random() < 0.15
+    unk_template, unk_history = None, None
+    if meas == "cross":
+        unk_template = rng.choice(UNK_TEMPLATES)
+        unk_history = gen_unk_history(rng, unk_template, P, B, alts)
+    patches = history_objects(rng, P, edges, closed, hasw, step_keys(history) + step_keys(unk_history or []))
+    spec = dict(tag="history:%s%s" % (template, ":unk:" + unk_template if unk_template else ""), family="history", closed=closed, hasw=hasw,
+                edges=list(edges), patches=patches, history=history, final=final, force=force, meas=meas,
+                cfg=rng.choice(["binning", "configuration"]), unk_history=unk_history)
+    r = rng.random()
+    if r < 0.15:
+        spec.update(tag=spec["tag"] + ":pickling", pool="pickling", workers=rng.choice([2, 3, 5]), order_seed=rng.randrange(10 ** 6))
+    elif r < 0.22:
+        spec.update(tag=spec["tag"] + ":real", pool="real", workers=rng.choice([2, 3]))
+    return spec
+
+
+def history_probe_specs():
+    """deterministic: four patches with redshifts on every edge of the requested binning, trees for another closed side /
+    other inner edges cached everywhere, then a rebuild with the requested binning that reached only the first patch, all but
+    the first, the last, every second patch, or was interrupted; measured through build_trees, autocorrelate, crosscorrelate"""
+    out = []
+    edges = [0.25, 0.5, 0.75, 1.0]
+    zs = [0.125, 0.25, 0.375, 0.5, 0.625, 0.75, 0.875, 1.0, 1.25]
+    for closed in ("left", "right"):
+        B = ("requested", edges, closed)
+        flipk = ("flip", edges, flip(closed))
+        moved = ("moved", [0.25, 0.625, 0.875, 1.0], closed)
+        unb = ("unbinned", None, closed)
+        patches = [[(zs[(3 * p + j) % len(zs)], (2.0 ** j) / 8.0) for j in range(5)] + [(0.5, 4.0), (0.6875, 8.0)] for p in range(4)]
+        base = dict(family="history", closed=closed, hasw=True, edges=edges, patches=patches, force=False, unk_history=None)
+        cases = [
+            ("first-only:auto", [hstep("catalog", flipk, via="auto"), hstep("patches", B, ids=[0])], "measure", "auto", None),
+            ("first-only:build", [hstep("catalog", moved), hstep("patches", B, ids=[0])], "build_trees", None, None),
+            ("all-but-first:cross", [hstep("catalog", flipk), hstep("patches", B, ids=[1, 2, 3])], "measure", "cross",
+             [hstep("catalog", B), hstep("patches", unb, ids=[0])]),
+            ("last-only:build", [hstep("catalog", flipk), hstep("patches", B, ids=[3])], "build_trees", "auto", None),
+            ("alternating:auto", [hstep("catalog", moved), hstep("patches", B, ids=[0, 2])], "measure", "auto", None),
+            ("interrupted:cross", [hstep("catalog", flipk, via="auto"), hstep("interrupted", B, fuel=2, via="auto")], "build_trees", "cross",
+             [hstep("catalog", flipk), hstep("interrupted", unb, fuel=1)]),
+            ("stale-tail:auto", [hstep("catalog", B), hstep("patches", flipk, ids=[2, 3])], "measure", "auto", None),
+            ("subset-only:auto", [hstep("patches", B, ids=[0, 1])], "measure", "auto", None),
+            ("unbinned-first:build", [hstep("catalog", unb), hstep("patches", B, ids=[0, 3])], "build_trees", "auto", None),
+        ]
+        for name, hist, final, meas, unk in cases:
+            out.append(dict(base, tag="history:probe:%s:%s" % (name, closed), history=hist, final=final, meas=meas, unk_history=unk,
+                            cfg="configuration" if len(out) % 2 else "binning"))
+        out.append(dict(base, tag="history:probe:first-only:forced:%s" % closed, history=[hstep("catalog", flipk), hstep("patches", B, ids=[0])],
+                        final="build_trees", force=True, meas="auto", cfg="binning"))
+        out.append(dict(base, tag="history:probe:first-only:pickling:%s" % closed, history=[hstep("catalog", flipk), hstep("patches", B, ids=[0])],
+                        final="measure", meas="auto", cfg="binning", pool="pickling", workers=3, order_seed=7))
+        out.append(dict(base, tag="history:probe:first-only:real:%s" % closed, history=[hstep("catalog", moved), hstep("interrupted", B, fuel=1)],
+                        final="build_trees", meas="auto", cfg="configuration", pool="real", workers=2))
+    return out
+
+
+def history_specs(ctx):
+    return history_probe_specs() + [random_history_spec(ctx.rng) for _ in range(ctx.n(150, 900))]
+
+
+def run_history_steps(cat, steps, errors, where):
+    """serial; an _Interrupted is the injected fault itself, any other exception is recorded (it is part of the history)"""
+    import yaw
+    from yaw.binning import Binning
+    from yaw.catalog.trees import BinnedTrees
+    for n, st in enumerate(steps or []):
+        e, c = st["edges"], st["closed"]
+        binning = None if e is None else Binning(np.asarray(e, dtype="f8"), closed=c)
+
+        def catalog_wide():
+            if st["via"] == "auto":
+                conf = impl.Configuration.create(rmin=100.0, rmax=1000.0, edges=e, closed=c, max_workers=1)
+                yaw.autocorrelate(conf, cat, cat, count_rr=False, max_workers=1)
+            else:
+                cat.build_trees(None if e is None else np.asarray(e, dtype="f8"), closed=c, force=st["force"], max_workers=1)
+        try:
+            if st["op"] == "patches":
+                for p in st["ids"]:
+                    BinnedTrees.build(cat[p], binning, force=st["force"])
+            elif st["op"] == "catalog":
+                catalog_wide()
+            else:
+                try:
+                    with interrupted_after(st["fuel"]):
+                        catalog_wide()
+                except _Interrupted:
+                    pass
+        except Exception as ex:  # noqa: BLE001
+            errors["%s[%d]" % (where, n)] = "%s: %s" % (type(ex).__name__, ex)
+
+
+def cache_snapshot(cat, P, errors=None, where=""):
+    """per patch None (no valid trees) or (key, [(num_records, sum_weights) per tree]); key = None (no binning) or (edges, closed)"""
+    from yaw.catalog.trees import BinnedTrees
+    out = []
+    for p in range(P):
+        try:
+            bt = BinnedTrees(cat[p])
+            key = None if bt.binning is None else ([float(x) for x in np.asarray(bt.binning.edges, dtype="f8")], str(bt.binning.closed))
+            tr = bt.trees
+            tr = [tr] if bt.binning is None else list(tr)
+            out.append((key, [(int(t.num_records), float(t.sum_weights)) for t in tr]))
+        except FileNotFoundError:
+            out.append(None)
+        except Exception as ex:  # noqa: BLE001 - a cache that cannot be read holds no valid trees
+            out.append(None)
+            if errors is not None:
+                errors["%s[patch %d]" % (where, p)] = "%s: %s" % (type(ex).__name__, ex)
+    return out
+
+
+def observe_history(ctx, spec, idx):
+    """returns dict(pre, post, hist, meas, unk_pre, unk_post, unk_meas, errors)"""
+    import yaw
+    from yaw.config import BinningConfig
+    from yaw.redshifts import HistData
+
+    impl.set_threads(1)
+    edges, closed, hasw = spec["edges"], spec["closed"], spec["hasw"]
+    W = int(spec.get("workers") or 1)
+    P = len(spec["patches"])
+    cols = make_frames(spec)
+    kw = dict(ra_name="ra", dec_name="dec", patch_name="pid", redshift_name="z", max_workers=1)
+    if hasw:
+        kw["weight_name"] = "w"
+    cache = impl.fresh_dir(ctx, "hcat_%d" % idx)
+    cache_u = impl.fresh_dir(ctx, "hcatu_%d" % idx) if spec["meas"] == "cross" else None
+    errors = {}
+    obs = dict(pre=None, post=None, hist=None, meas=None, unk_pre=None, unk_post=None, unk_meas=None, errors=errors)
+    old = np.seterr(invalid="ignore", divide="ignore")
+    try:
+        cat = impl.Catalog.from_dataframe(cache, impl.make_df(cols), **kw)
+        assert sorted(int(k) for k in cat.keys()) == list(range(P)), "patch ids"
+        cat_u = None
+        if cache_u:     # the same rows; the redshift column is kept so that this catalog can have served as a binned sample before
+            cat_u = impl.Catalog.from_dataframe(cache_u, impl.make_df(cols), **kw)
+        run_history_steps(cat, spec["history"], errors, "history")
+        if cat_u is not None:
+            run_history_steps(cat_u, spec["unk_history"], errors, "unk_history")
+            obs["unk_pre"] = cache_snapshot(cat_u, P)
+        obs["pre"] = cache_snapshot(cat, P)
+        with pool_flavour(spec):
+            built = True
+            if spec["final"] == "build_trees":
+                try:
+                    cat.build_trees(np.asarray(edges, dtype="f8"), closed=closed, force=spec["force"], max_workers=W)
+                except Exception as e:  # noqa: BLE001
+                    built = False
+                    errors["build_trees"] = "%s: %s" % (type(e).__name__, e)
+            try:
+                if spec["cfg"] == "binning":
+                    conf = BinningConfig.create(edges=edges, closed=closed)
+                else:
+                    conf = impl.Configuration.create(rmin=100.0, rmax=1000.0, edges=edges, closed=closed, max_workers=W)
+                obs["hist"] = [float(x) for x in HistData.from_catalog(cat, conf, max_workers=W).data]
+            except Exception as e:  # noqa: BLE001
+                errors["hist"] = "%s: %s" % (type(e).__name__, e)
+            if spec["meas"] and built:
+                try:
+                    conf = impl.Configuration.create(rmin=100.0, rmax=1000.0, edges=edges, closed=closed, max_workers=W)
+                    if spec["meas"] == "auto":
+                        sw = yaw.autocorrelate(conf, cat, cat, count_rr=False, max_workers=W)[0].dd.sum_weights
+                        if not np.array_equal(sw.sum_weights1, sw.sum_weights2):
+                            errors["meas"] = "autocorrelation: sum_weights1 != sum_weights2"
+                    else:
+                        sw = yaw.crosscorrelate(conf, cat, cat_u, unk_rand=cat_u, max_workers=W)[0].dd.sum_weights
+                        obs["unk_meas"] = [[float(x) for x in row] for row in np.asarray(sw.sum_weights2)]
+                    obs["meas"] = [[float(x) for x in row] for row in np.asarray(sw.sum_weights1)]
+                except Exception as e:  # noqa: BLE001
+                    errors["meas"] = "%s: %s" % (type(e).__name__, e)
+        obs["post"] = cache_snapshot(cat, P, errors, "cache")
+        if cat_u is not None:
+            obs["unk_post"] = cache_snapshot(cat_u, P, errors, "unk_cache")
+        return obs
+    finally:
+        np.seterr(**old)
+        impl.set_threads(1)
+        shutil.rmtree(cache, ignore_errors=True)
+        if cache_u:
+            shutil.rmtree(cache_u, ignore_errors=True)
+
+
+def key_term(key):
+    """key = None or (edges, closed)"""
+    return fq.opt(key, lambda k: fq.pair(fq.b(k[1] == "right"), fq.qlist(k[0])))
+
+
+def hstep_term(st):
+    key = key_term(None if st["edges"] is None else (st["edges"], st["closed"]))
+    if st["op"] == "patches":
+        return "(HPatches %s %s %s)" % (fq.nlist(st["ids"]), fq.b(st["force"]), key)
+    if st["op"] == "catalog":
+        return "(HCatalog %s %s)" % (fq.b(st["force"]), key)
+    return "(HInterrupted %s %s %s)" % (fq.nat(st["fuel"]), fq.b(st["force"]), key)
+
+
+def cache_term(snap):
+    return fq.lst([fq.opt(e, lambda e_: fq.pair(key_term(e_[0]), fq.lst([fq.pair(fq.nat(n), fq.q(w)) for n, w in e_[1]]))) for e in snap])
+
+
+def history_terms(spec, obs):
+    """the catalog measured with the configured binning, and (cross) the catalog measured without binning"""
+    patches = fq.lst([fq.lst([fq.pair(fq.q(z), fq.q(w)) for z, w in objs]) for objs in spec["patches"]])
+    head = "c10_cache_case %s %s" % (fq.b(spec["hasw"]), patches)
+    main = "%s %s %s %s %s %s %s %s %s" % (
+        head, fq.lst([hstep_term(st) for st in spec["history"]]), fq.b(spec["force"]), key_term((spec["edges"], spec["closed"])),
+        fq.qlist(spec["edges"]), cache_term(obs["pre"]), cache_term(obs["post"]), fq.opt(obs["hist"], fq.qlist), fq.opt(obs["meas"], fq.qmat))
+    unk = None
+    if obs["unk_post"] is not None:
+        unk = "%s %s false None %s %s %s None %s" % (
+            head, fq.lst([hstep_term(st) for st in spec["unk_history"]]), fq.qlist(spec["edges"]), cache_term(obs["unk_pre"]),
+            cache_term(obs["unk_post"]), fq.opt(obs["unk_meas"], fq.qmat))
+    return main, unk
+
+
+def label_history(ctx, spec, obs):
+    edges, closed = spec["edges"], spec["closed"]
+    want = (list(edges), closed)
+    zs = [z for objs in spec["patches"] for z, _ in objs]
+    on_edge = any(z in edges for z in zs)
+    info = dict(z_on_edge=on_edge)
+    for side, pre, req in (("", obs["pre"], want), ("unk:", obs["unk_pre"], None)):
+        if pre is None:
+            continue
+        keys = [("missing",) if e is None else ("key", repr(e[0])) for e in pre]
+        cur = [e is not None and e[0] == req for e in pre]
+        flags = dict(mixed=len(set(keys)) > 1, stale=any(e is not None and e[0] != req for e in pre), missing=any(e is None for e in pre),
+                     first_current_others_not=cur[0] and not all(cur), first_not_current_others_are=not cur[0] and any(cur),
+                     all_current=all(cur))
+        # a patch whose cached binning puts one of its objects into another bin than the requested one (labels only)
+        moved = False
+        if req is not None:
+            for e, objs in zip(pre, spec["patches"]):
+                if e is not None and e[0] is not None and e[0] != req:
+                    moved = moved or any([gen_member(e[0][1], e[0][0], b, z) for b in range(len(e[0][0]) - 1)] !=
+                                         [gen_member(closed, edges, b, z) for b in range(len(edges) - 1)] for z, _ in objs)
+            flags["stale_binning_moves_an_object"] = moved
+        for name, flag in flags.items():
+            if flag:
+                ctx.bump("history:%spre:%s" % (side, name))
+            info[side + name] = flag
+    ctx.bump("history:template:" + spec["tag"].split(":")[1])
+    ctx.bump("history:final:%s%s" % (spec["final"], ":forced" if spec["force"] else ""))
+    ctx.bump("history:patches:%d" % len(spec["patches"]))
+    if spec["meas"]:
+        ctx.bump("history:measurement:" + spec["meas"])
+    for st in (spec["history"] or []) + (spec["unk_history"] or []):
+        ctx.bump("history:step:%s:%s" % (st["op"], st["name"]))
+    how = flavour_of(spec)
+    steps = lambda h: tuple((st["op"], st["via"], tuple(st["ids"] or ()), st["fuel"], st["force"], tuple(st["edges"] or ()), st["closed"])  # noqa: E731
+                            for st in (h or []))
+    key = ("history", closed, spec["hasw"], tuple(edges), tuple(tuple(o) for objs in spec["patches"] for o in objs + [("|", 0)]),
+           steps(spec["history"]), spec["final"], spec["force"], spec["meas"], spec["cfg"], steps(spec["unk_history"]), how, spec.get("workers"))
+    nontrivial = bool(info.get("mixed") or info.get("stale") or info.get("missing") or info.get("unk:mixed") or info.get("unk:stale"))
+    ctx.count(key=key, nontrivial=nontrivial, kind="history/%s/%s/%s%s" % (closed, spec["final"], spec["meas"] or "trees-only", "/" + how if how else ""))
+    return info
+
+
+def interpret_history(ctx, idx, spec, obs, info, c, cu):
+    """bits (set = flag false): 1 model of the cache = observed cache after the measured build, 2 observed trees = spec, 4 every patch reports
+    the requested binning, 8 hist = spec, 16 consistent, 32 model of the history = observed cache before the measured build, 64 hist = model of
+    the current histogram, 128 measurement = spec, 256 hypotheses, 512 every patch with wrong trees still holds its earlier entry"""
+    case = ("history", idx)
+    how = flavour_of(spec)
+    how = ":" + how if how else ""
+    via = "Catalog.build_trees(force=%s)" % spec["force"] if spec["final"] == "build_trees" else "%scorrelate" % spec["meas"]
+    hist_text = "; ".join("%s %s%s%s with %s" % (
+        st["op"], "patches %s " % st["ids"] if st["op"] == "patches" else "", "after %d rebuilds " % st["fuel"] if st["op"] == "interrupted" else "",
+        "(via autocorrelate) " if st["via"] == "auto" else "", "no binning" if st["edges"] is None else "edges %s closed=%s" % (st["edges"], st["closed"]))
+        for st in spec["history"])
+    for which, code, pre, post, meas in (("", c, obs["pre"], obs["post"], obs["meas"]), ("unbinned-sample:", cu, obs["unk_pre"], obs["unk_post"], obs["unk_meas"])):
+        if code is None:
+            continue
+        replay = dict(spec=spec, observed=obs, labels=info, code=code, sample=which or "binned-sample")
+        if code & 256:
+            ctx.obligation("generator:history case %d %ssatisfies the theorems' hypotheses" % (idx, which), False, repr(spec))
+            continue
+        if code & (1 | 32):
+            ctx.disagree("History_C10", case, dict(code=code, sample=which, spec=spec, observed=obs))
+        stale = ":stale-trees-kept" if (code & 2) and not (code & 512) else ""
+        wrong = [p for p, (a, b) in enumerate(zip(pre or [], post or [])) if a is not None and a == b and code & 2]
+        if not which:
+            if code & 2:
+                if "build_trees" in obs["errors"]:
+                    ctx.fail("c10-build-trees-raises:%s:after-cache-history%s" % (obs["errors"]["build_trees"].split(":")[0], how),
+                             "Catalog.build_trees raised on a catalog whose patches all hold objects inside the binning, after the cache history [%s]: %s"
+                             % (hist_text, obs["errors"]["build_trees"]), replay, case=case)
+                else:
+                    ctx.fail("c10-trees-membership:after-cache-history%s%s" % (stale, how),
+                             "after %s with edges %s closed=%s the cached trees of some patches do not follow that rule%s: cache history [%s]; "
+                             "cache before %s; cache after %s; objects %s%s" % (
+                                 via, spec["edges"], spec["closed"], " (patches %s kept the trees they held before)" % wrong if stale else "",
+                                 hist_text, pre, post, spec["patches"], where_text(spec)), replay, case=case)
+            if code & 8:
+                if obs["hist"] is None:
+                    ctx.fail("c10-hist-raises:" + obs["errors"].get("hist", "?").split(":")[0] + how,
+                             "HistData.from_catalog raised: %s" % obs["errors"].get("hist"), replay, case=case)
+                elif not (code & 64) and spec["closed"] == "right":
+                    ctx.fail(SIG_F11, "HistData.from_catalog with closed=right counts a redshift on an inner bin edge in the upper bin "
+                             "(mask + np.histogram): edges %s, objects %s, histogram %s" % (spec["edges"], spec["patches"], obs["hist"]),
+                             replay, case=case)
+                else:
+                    ctx.fail("c10-hist-membership" + how, "HistData.from_catalog(...).data differs from the closed-%s rule%s: edges %s, "
+                             "objects %s, histogram %s" % (spec["closed"], where_text(spec), spec["edges"], spec["patches"], obs["hist"]),
+                             replay, case=case)
+        if "meas" in obs["errors"] and spec["meas"] and not which:
+            ctx.fail("c10-measurement-raises:%s:after-cache-history%s" % (obs["errors"]["meas"].split(":")[0], how),
+                     "%scorrelate failed on catalogs whose patches all hold objects inside the binning, after the cache history [%s] "
+                     "(cache before: %s): %s" % (spec["meas"], hist_text, pre, obs["errors"]["meas"]), replay, case=case)
+        elif code & 128:
+            ctx.fail("c10-measurement-sum-weights:%safter-cache-history%s%s" % (which, stale, how),
+                     "%scorrelate with edges %s closed=%s: dd.sum_weights.sum_weights%d (bins x patches) = %s does not follow %s; cache of that "
+                     "catalog before the measurement %s, after %s; objects %s%s" % (
+                         spec["meas"], spec["edges"], spec["closed"], 2 if which else 1, meas,
+                         "the patch total in every bin (sample without binning)" if which else "the closed-side rule",
+                         pre, post, spec["patches"], where_text(spec)), replay, case=case)
+        elif code & 16 and not (code & (2 | 8)) and not which:
+            ctx.fail("c10-consumers-inconsistent:after-cache-history" + how,
+                     "trees, histogram and measurement sum_weights are mutually inconsistent: %s" % obs, replay, case=case)
+
+
+def run_history_family(ctx, specs, name="History_C10"):
+    terms, kept = [], []
+    for idx, spec in enumerate(specs):
+        try:
+            obs = observe_history(ctx, spec, idx)
+        except Exception as e:  # catalog creation of a valid input must not raise
+            ctx.fail("c10-harness-or-creation-raises:%s" % type(e).__name__,
+                     "creating / observing the catalog of a cache history raised %s: %s" % (type(e).__name__, e),
+                     dict(spec=spec, traceback=traceback.format_exc()[-1500:]), case=("history", idx))
+            continue
+        for where, err in sorted(obs["errors"].items()):
+            if where.startswith(("history", "unk_history")):
+                ctx.bump("history:step-raised:" + err.split(":")[0])
+        info = label_history(ctx, spec, obs)
+        ctx.sample(dict(spec=spec, observed=obs), limit=4)
+        main, unk = history_terms(spec, obs)
+        kept.append((idx, spec, obs, info, len(terms), None if unk is None else len(terms) + 1))
+        terms.append(main)
+        if unk is not None:
+            terms.append(unk)
+    ctx.log("%d cache histories observed (%d evaluations), evaluating in Coq" % (len(kept), len(terms)))
+    if not terms:
+        return []
+    codes = ctx.shards(name, HEADER, terms, shard=100)
+    hyp_ok = sum(1 for c in codes if c is not None and not (c & 256))
+    ctx.extra["hypotheses_checked_history"] = {
+        "every binning of the history and the requested one valid, an object of every patch inside each, patch ids exist "
+        "(flag 8 of c10_cache_case, evaluated in Coq)": "%d/%d" % (hyp_ok, len(codes))}
+    for idx, spec, obs, info, i, j in kept:
+        interpret_history(ctx, idx, spec, obs, info, codes[i], None if j is None else codes[j])
+    return codes
+
+
 # ---------------------------------------------------------------- transports: what arrives is what was sent
 def make_obj(objtype, closed, edges):
     from yaw.binning import Binning
@@ -1130,6 +1663,7 @@ def run(ctx):
     ctx.log("%d serial cases, %d cases across a process boundary" % (nserial, len(specs) - nserial))
     run_specs(ctx, specs)
     run_linked(ctx, linked_specs(ctx))
+    run_history_family(ctx, history_specs(ctx))
     eval_transports(ctx, transport_records(ctx))
 
 
@@ -1151,6 +1685,10 @@ def replay(ctx, body):
             eval_transports(ctx, [rec], name="ReplayTransport_C10")
             return
     spec = rp["spec"]
+    if spec.get("family") == "history":
+        spec["patches"] = [[tuple(o) for o in objs] for objs in spec["patches"]]
+        run_history_family(ctx, [spec], name="ReplayHistory_C10")
+        return
     if spec.get("family") == "linked":
         for sample in spec["samples"].values():
             sample["patches"] = [[tuple(o) for o in objs] for objs in sample["patches"]]
